@@ -13,18 +13,10 @@ func init() { register("C20", checkC20) }
 
 // Vetted residuals of the message / ValidateBasic / query inventory (g4), closed table.
 var c20Vetted = map[string]string{
-	"coinsub @ x/cfevesting/keeper.Keeper.UnlockUnbondedContinuousVestingAccountCoins : sdk/types.Coins.Sub":    "OriginalVesting minus amount*OV/vesting (truncated): amount <= locked <= vesting by the IsAllLTE guard, so the difference is <= OV (numeric part of C07)",
-	"coinsub @ x/cfevesting/keeper.Keeper.UnlockUnbondedContinuousVestingAccountCoins : sdk/types.Coins.Sub #2": "the one-unit compensation is subtracted only when less than the requested amount was unlocked, which implies OriginalVesting is still positive (numeric part of C07)",
-	"index @ x/cfeminter/types.Params.validateMintersEndTimeValue : index []*x/cfeminter/types.Minter":          "index i-1 under 0 < i < lastPos, i being the caller's range-loop index over the same slice",
-	"index @ x/cfeminter/types.Params.validateMintersEndTimeValue : index []*x/cfeminter/types.Minter #2":       "same position (second comparison)",
-	"index @ x/cfeminter/types.Params.validateMintersEndTimeValue : index []*x/cfeminter/types.Minter #3":       "same position (error message)",
-	"int64 @ x/cfevesting/keeper.Keeper.WithdrawAllAvailable$1 : math.Int.Int64":                                "the deferred gauge is registered only under toWithdraw.IsInt64(); the named result it reads is NewCoin(denom, toWithdraw) on the only return that follows",
-	"newcoin @ x/cfevesting/keeper.Keeper.UnlockUnbondedContinuousVestingAccountCoins : sdk/types.NewCoin":      "amount = truncated quotient of non-negative quantities (numeric part of C07); denomination is that of a validated coin",
-	"newcoin @ x/cfevesting/keeper.Keeper.WithdrawAllAvailable : sdk/types.NewCoin #2":                          "sum of GetCurrentlyLocked of matured pools: non-negative by the pool ledger invariant (C05: withdrawn+sent <= initially locked)",
-	"newcoin @ x/cfevesting/keeper.Keeper.newVestingAccount : sdk/types.NewCoin #2":                             "amount*(1-free) truncated with 0 <= free <= 1 (vesting-type validation) and amount validated non-negative",
-	"panic @ x/cfeminter/keeper.Keeper.GetMinterState : panic(\"stored minter state should not have bee...)":    "the minter state key is written by InitGenesis and never deleted",
-	"quo @ x/cfeminter/types.LinearMinting.CalculateInflation : sdk/types.Dec.QuoInt64":                         "divisor = period length in ns; validation orders end strictly after start",
-	"quo @ x/cfevesting/keeper.Keeper.UnlockUnbondedContinuousVestingAccountCoins : sdk/types.Dec.Quo":          "divisor = still-vesting amount of the denomination; under coin.Amount > 0 and amount <= locked <= vesting it is positive",
+	"index @ x/cfeminter/types.Params.validateMintersEndTimeValue : index []*x/cfeminter/types.Minter":       "index i-1 under 0 < i < lastPos, i being the caller's range-loop index over the same slice",
+	"index @ x/cfeminter/types.Params.validateMintersEndTimeValue : index []*x/cfeminter/types.Minter #2":    "same position (second comparison)",
+	"index @ x/cfeminter/types.Params.validateMintersEndTimeValue : index []*x/cfeminter/types.Minter #3":    "same position (error message)",
+	"panic @ x/cfeminter/keeper.Keeper.GetMinterState : panic(\"stored minter state should not have bee...)": "the minter state key is written by InitGenesis and never deleted",
 }
 
 // Vetted non-local nil guards (C20.nilfield), closed table.
